@@ -5,23 +5,34 @@ C20, decision logic tied by TRANSLATION: the condition under which `leftPadder.P
 -/
 import Iso8583.Gen.GuardsPad
 import Iso8583.Model.Padding
+import Iso8583.Lemmas.GuardTactics
 
 namespace Iso8583.GuardsPad
 open Iso8583 Iso8583.Gen.Guards
+
+theorem left_pad_iff (dlen length : Nat) : (left_Pad_exits dlen length).any id = true ↔ dlen ≥ length := by
+  unfold left_Pad_exits; guards_to_prop <;> guards_done
+
+theorem right_pad_iff (dlen length : Nat) : (right_Pad_exits dlen length).any id = true ↔ dlen ≥ length := by
+  unfold right_Pad_exits; guards_to_prop <;> guards_done
 
 theorem left_pad_translated (c : Byte) (data : Bytes) (length : Nat) :
     Pad.pad (.left c) data length =
       if (left_Pad_exits data.length length).any id then data
       else List.replicate (length - data.length) c ++ data := by
-  have h : ((data.length : Int) ≥ (length : Int)) ↔ data.length ≥ length := by omega
-  simp only [Pad.pad, left_Pad_exits, List.any_cons, List.any_nil, id, Bool.or_false, decide_eq_true_eq, h]
+  simp only [Pad.pad]
+  by_cases h : data.length ≥ length
+  · rw [if_pos h, if_pos ((left_pad_iff _ _).mpr h)]
+  · rw [if_neg h, if_neg (fun x => h ((left_pad_iff _ _).mp x))]
 
 theorem right_pad_translated (c : Byte) (data : Bytes) (length : Nat) :
     Pad.pad (.right c) data length =
       if (right_Pad_exits data.length length).any id then data
       else data ++ List.replicate (length - data.length) c := by
-  have h : ((data.length : Int) ≥ (length : Int)) ↔ data.length ≥ length := by omega
-  simp only [Pad.pad, right_Pad_exits, List.any_cons, List.any_nil, id, Bool.or_false, decide_eq_true_eq, h]
+  simp only [Pad.pad]
+  by_cases h : data.length ≥ length
+  · rw [if_pos h, if_pos ((right_pad_iff _ _).mpr h)]
+  · rw [if_neg h, if_neg (fun x => h ((right_pad_iff _ _).mp x))]
 
 example : (left_Pad_exits 3 3).any id = true ∧ (left_Pad_exits 2 3).any id = false := by decide
 
